@@ -151,6 +151,7 @@ class EngineCore:
         self.prune = True
         self.cur_fn_key = ""
         self.inlined: set[str] = set()
+        self.handlers_seen: dict[tuple[str, int], bool] = {}  # except clauses met on explored paths -> entered at least once
         self.trusted_used: set[str] = set()
         self.contracts_used: set[str] = set()
         self.infeasible_pruned = 0
